@@ -1,18 +1,41 @@
 import KinModel.Drv.Util
 import KinModel.Middleware
+import KinModel.MiddlewareSrc
+import KinModel.Gen.WrapperMethods
 open Lean
 namespace KinModel.Drv.C14
 open KinModel.Drv KinModel.Middleware
 
-def parseOp (j : Json) : Op :=
-  match getStr j "op" with
-  | "set" => .setHdr (getStr j "k") (getStr j "v")
-  | "del" => .delHdr (getStr j "k")
-  | "wh" => .writeHeader (getNat j "n")
-  | "w" => .write (getStr j "b").toList
-  | _ => .flush
+/-- bytes of a write: "b", repeated "rep" times when given (large bodies) -/
+def opBytes (j : Json) : Bytes :=
+  let b := (getStr j "b").toList
+  match getNat j "rep" with
+  | 0 => b
+  | n => (List.replicate n b).flatten
 
-def parseOps (js : List Json) : List Op := js.map parseOp
+/-- Handler calls of the harness. Calls that go through an optional interface are lowered to what they amount
+to on the wrappers as the source defines them (table WrapperMethods; obligations
+`strict_wrapper_offers_no_optional_interface`, `warn_wrapper_offers_flusher_only`):
+  "rcfl"  http.NewResponseController(w).Flush(): FlushError, else http.Flusher, else Unwrap — a Flush exactly when
+          the writer is an http.Flusher, i.e. the model's `.flush` (a no-op on the strict wrapper);
+  "ws"    io.WriteString(w, s): WriteString if offered, else Write — a Write;
+  "copy"  io.Copy(w, r): ReadFrom if offered, else Write per chunk — a Write of the bytes (nothing when empty);
+  "probe" records which optional interfaces the writer offers (no call on the writer). -/
+def parseOp (j : Json) : Option Op :=
+  match getStr j "op" with
+  | "set" => some (.setHdr (getStr j "k") (getStr j "v"))
+  | "del" => some (.delHdr (getStr j "k"))
+  | "wh" => some (.writeHeader (getNat j "n"))
+  | "w" => some (.write (opBytes j))
+  | "ws" => some (.write (opBytes j))
+  | "copy" => if (opBytes j).isEmpty then none else some (.write (opBytes j))
+  | "panic" => some .panic
+  | "probe" => none
+  | _ => some .flush
+
+def parseOps (js : List Json) : List Op := js.filterMap parseOp
+
+def hasOpKind (js : List Json) (k : String) : Bool := js.any (fun j => getStr j "op" == k)
 
 /-- the callbacks the harness installs as ErrFunc (case field "errfn") -/
 def errOpsOf (kind : String) (custom : List Op) : ErrCode → List Op :=
@@ -146,9 +169,14 @@ def jhdr (h : Hdr) : Json := Json.arr ((sortKV h).map (fun p => Json.arr #[Json.
 /-- headers as received once the exchange is over (no WriteHeader: the map as it is at the end) -/
 def finalSent (c : Client) : Hdr := if c.status.isNone then c.hdr else c.sent
 
+/-- net/http's client gives up on a response preceded by more than 5 informational responses
+(http.Transport, max1xxResponses): the exchange is then observed as aborted, like a handler panic -/
+def aborted (c : Client) : Bool := c.panicked || (c.server && c.info.length > 5)
+
 def jclient (c : Client) : List (String × Json) :=
   [("status", Json.num (c.seen.status : Nat)), ("body", Json.str (String.ofList c.body)),
-   ("sent", jhdr (finalSent c)), ("flushed", Json.bool c.flushed), ("panicked", Json.bool c.panicked)]
+   ("sent", jhdr (finalSent c)), ("flushed", Json.bool c.flushed), ("panicked", Json.bool (aborted c)),
+   ("info", Json.arr (c.info.map (fun n => Json.num (n : Nat))).toArray)]
 
 def errStr (e : ErrCode) : String := s!"{e.httpStatus}:{e.num}"
 def logStr : LogKind → String | .route => "route" | .request => "request" | .response => "response"
@@ -164,32 +192,82 @@ def opBranches (ops : List Op) (strict : Bool) : List String :=
   (if (match ops.find? (fun o => match o with | .writeHeader _ => true | .write _ => true | _ => false) with
         | some (.write _) => true | _ => false) then ["ops.write_first"] else []) ++
   (if (ops.filter (fun o => match o with | .write _ => true | _ => false)).length > 1 then ["ops.pieces"] else []) ++
-  (if firstStatus true ops != firstStatus false ops then ["ops.flush_before_status"] else []) ++
+  (if firstStatus false true ops != firstStatus false false ops then ["ops.flush_before_status"] else []) ++
   (if ops.any (fun o => o == .flush) then ["ops.flush"] else []) ++
   (if after.any (fun o => match o with | .setHdr _ _ => true | .delHdr _ => true | _ => false) then ["ops.hdr_after_status"] else []) ++
   (if !validCodesB ops then ["ops.invalid_code"] else []) ++
   (if ops.any (fun o => match o with | .write [] => true | _ => false) then ["ops.empty_write"] else []) ++
+  (if ops.any (fun o => match o with | .write bs => bs.length ≥ 4096 | _ => false) then ["ops.big_write"] else []) ++
+  (if ops.any opInfo then ["ops.info_code"] else []) ++
+  (if panics ops then ["ops.panic"] else []) ++
   (if strict then ["strict"] else [])
 
-def handleMw (j : Json) : Json :=
+structure MwIn where
+  cfg : Cfg
+  env : Env
+  ops : List Op
+  rq : Rq
+  entries : List (String × String)
+
+/-- the options handed to NewValidator, in order (case field "vopts"); ω = (IncludeResponseStatus, ExcludeResponseBody) -/
+def parseVOpt (custom : List Op) (j : Json) : VOpt (Bool × Bool) :=
+  match getStr j "o" with
+  | "strict" => .strict (getBool j "v")
+  | "onerr" => .onErr (errOpsOf (getStr j "kind") custom)
+  | "onlog" => .onLog
+  | _ => .validationOptions (getBool j "inc", getBool j "exb")
+
+def parseMw (j : Json) : MwIn :=
   let ops := parseOps (getArr j "ops")
-  let strict := getBool j "strict"
+  let doc0 := getD j "doc" Json.null
+  -- with "vopts" the Validator's configuration is what NewValidator makes of the option list
+  let setup : Option (Setup (Bool × Bool)) :=
+    match j.getObjVal? "vopts" with
+    | .ok (.arr a) => some (newValidator (false, false) (a.toList.map (parseVOpt (parseOps (getArr j "errops")))))
+    | _ => none
+  let strict := match setup with | some s => s.strict | none => getBool j "strict"
   let errfn := getStr j "errfn"
-  let cfg : Cfg := { strict := strict, errOps := errOpsOf errfn (parseOps (getArr j "errops")) }
-  let doc := getD j "doc" Json.null
-  let entries := (getArr doc "responses").map (fun e => (getStr e "key", getStr e "kind"))
+  let cfg : Cfg := match setup with
+    | some s => s.cfg
+    | none => { strict := strict, errOps := errOpsOf errfn (parseOps (getArr j "errops")) }
+  let doc := match setup with
+    | some s => doc0.mergeObj (jobj [("includeStatus", Json.bool s.options.1), ("excludeRespBody", Json.bool s.options.2)])
+    | none => doc0
+  -- a second operation (GET /w) with its own responses: requests with "path2" go there
+  let entries := (getArr doc (if getBool j "path2" then "responses2" else "responses")).map
+                   (fun e => (getStr e "key", getStr e "kind"))
   let rq := parseRq j true
   let env : Env := envOf (getStr j "route" == "ok") rq.o rq.op (fun s => rq.declared.contains s)
                      (fun s => rq.accepted.contains s)
-                     (respOKOf entries (getBool doc "includeStatus") (getBool doc "excludeRespBody"))
-  let o := middleware cfg env ops
+                     -- ValidateResponse returns nil for every response to a HEAD request
+                     (if getBool j "head" && !rq.op.hasBody then fun _ _ _ => true
+                      else respOKOf entries (getBool doc "includeStatus") (getBool doc "excludeRespBody"))
+                     (getStr j "transport" == "server")
+  { cfg := cfg, env := env, ops := ops, rq := rq, entries := entries }
+
+def hasKind (js : List Json) (k : String) : Bool := js.any (fun j => getStr j "o" == k)
+
+/-- reply for one request, given the outcome the (sequence) model assigns to it -/
+def renderMw (j : Json) (p : MwIn) (o : Outcome) : Json :=
+  let ops := p.ops
+  let strict := p.cfg.strict
+  let errfn := getStr j "errfn"
+  let cfg := p.cfg
+  let doc := getD j "doc" Json.null
+  let entries := p.entries
+  let rq := p.rq
+  let env := p.env
   let s := spec cfg env ops
   let applicable := validCodesB ops
-  let excl : List String := []
+  let excl : List String := if informational env.server ops then ["Informational1xx"] else []
+  let rawOps := getArr j "ops"
+  let vopts := getArr j "vopts"
+  let wrapperTy := if strict then "strictResponseWrapper" else "warnResponseWrapper"
+  let ifaces := (KinModel.MiddlewareSrc.offered KinModel.Gen.wrapperMethods wrapperTy).map (·.name)
   let branches :=
     (if env.routeFound then rqBranches j rq else []) ++
     (if env.routeFound && env.reqOK then
-       (match lookupEntry entries (validatedStatus (if strict then (Strict.run {} ops).status else (Warn.run {} ops).status)) with
+       (match lookupEntry entries (validatedStatus ((wroteStatus ops).getD 0)) with
         | some (k, kind) => ["resp.kind." ++ kind] ++ (if k.endsWith "XX" then ["resp.range_key"] else []) ++
                             (if k == "default" then ["resp.default_key"] else [])
         | none => ["resp.undocumented"]) ++
@@ -200,26 +278,45 @@ def handleMw (j : Json) : Json :=
       (if o.logs == [.response] then (if strict then ["mw.strict_replaced"] else ["mw.warn_logged"]) else
         (if strict then ["mw.strict_flushed"] else [])) ++
       (if o.client.panicked then ["mw.panic"] else [])) ++
-    (if errfn != "default" then ["cb.err." ++ errfn] else []) ++
-    (if getStr j "logfn" == "default" then ["cb.log.default"] else []) ++
+    (if errfn != "default" && vopts.isEmpty then ["cb.err." ++ errfn] else []) ++
+    (if getStr j "logfn" == "default" && vopts.isEmpty then ["cb.log.default"] else []) ++
     (if getStr j "transport" == "server" then ["tr.server"] else []) ++
+    (if getBool j "head" then ["req.head"] else []) ++
+    (["rcfl", "ws", "copy", "probe"].filter (hasOpKind rawOps)).map ("ops.iface." ++ ·) ++
+    (if !excl.isEmpty && env.routeFound && env.reqOK then ["mw.info_" ++ (if strict then "strict" else "warn")] else []) ++
+    (vopts.map (fun o => "opt." ++ getStr o "o" ++ (if getStr o "o" == "onerr" then "." ++ getStr o "kind" else ""))).eraseDups ++
+    (if !vopts.isEmpty then
+       (["strict", "onerr", "onlog", "valopts"].filter (fun k => !hasKind vopts k)).map ("opt.default." ++ ·) ++
+       (["strict", "onerr", "onlog", "valopts"].filter (fun k => (vopts.filter (fun o => getStr o "o" == k)).length > 1)).map ("opt.repeated." ++ ·)
+     else []) ++
     (if env.routeFound && env.reqOK && (wroteStatus ops).isNone &&
         (env.respOK 0 (finalHdr ops) [] != env.respOK 200 (finalHdr ops) []) then ["mw.status0_as_200"] else [])
   jobj [
     ("model", jobj ([("ran", Json.bool o.handlerRan), ("err", jstrs (o.errCalls.map errStr)),
-                     ("logs", jstrs (o.logs.map logStr))] ++ jclient o.client)),
+                     ("logs", jstrs (o.logs.map logStr)),
+                     -- what a `probe` call of the handler sees: the optional interfaces of the wrapper it was handed
+                     ("ifaces", if o.handlerRan then jstrs ifaces else Json.null)] ++ jclient o.client)),
     ("spec", jobj [("applicable", Json.bool applicable), ("ran", Json.bool s.handlerRan),
                    ("status", Json.num (s.seen.status : Nat)), ("body", Json.str (String.ofList s.seen.body)),
-                   ("err", jstrs (s.errCalls.map errStr)), ("panicked", Json.bool s.panicked),
+                   ("err", jstrs (s.errCalls.map errStr)),
+                   ("panicked", Json.bool (s.panicked || (match s.full with | some c => aborted c | none => false))),
                    ("full", match s.full with | some c => jobj (jclient c) | none => Json.null),
                    ("meets", Json.bool (meetsB o s))]),
     ("excl", jstrs excl),
     ("branches", jstrs branches)]
 
-def handleVh (j : Json) : Json :=
-  let ops := parseOps (getArr j "ops")
-  let enc := getStr j "enc"
-  let encOps := encOpsOf enc (parseOps (getArr j "errops"))
+def handleMw (j : Json) : Json :=
+  let p := parseMw j
+  renderMw j p (middleware p.cfg p.env p.ops)
+
+structure VhIn where
+  encOps : ReqFail → List Op
+  fail : ReqFail
+  ops : List Op
+  rq : Rq
+  server : Bool
+
+def parseVh (j : Json) : VhIn :=
   let rq := parseRq j false
   let fail : ReqFail :=
     match getStr j "route" with
@@ -232,8 +329,15 @@ def handleVh (j : Json) : Json :=
              (match getStr (getD j "rq" Json.null) "bodyFail" with
               | "empty" => .bodyMissing | "ctype" => .bodyType | _ => .bodySchema)
            | .err _ => .invalid
-  let o := vhandler encOps fail ops
-  let s := vspec encOps fail ops
+  { encOps := encOpsOf (getStr j "enc") (parseOps (getArr j "errops")), fail := fail,
+    ops := parseOps (getArr j "ops"), rq := rq, server := getStr j "transport" == "server" }
+
+def renderVh (j : Json) (p : VhIn) (o : VOutcome) : Json :=
+  let ops := p.ops
+  let enc := getStr j "enc"
+  let fail := p.fail
+  let rq := p.rq
+  let s := vspec p.encOps fail ops p.server
   let branches :=
     ["vh." ++ failStr fail, "vh.enc." ++ enc, "vh.entry." ++ getStr j "entry"] ++
     (if fail == .none then opBranches ops false else []) ++
@@ -245,14 +349,70 @@ def handleVh (j : Json) : Json :=
     ("model", out o),
     ("spec", jobj [("applicable", Json.bool true), ("ran", Json.bool s.handlerRan),
                    ("status", Json.num (s.client.seen.status : Nat)), ("body", Json.str (String.ofList s.client.seen.body)),
-                   ("err", jstrs (s.encCalls.map failStr)), ("panicked", Json.bool s.client.panicked),
+                   ("err", jstrs (s.encCalls.map failStr)), ("panicked", Json.bool (aborted s.client)),
                    ("full", jobj (jclient s.client)), ("meets", Json.bool (decide (o = s)))]),
     ("excl", Json.arr #[]),
     ("branches", jstrs branches)]
 
+def handleVh (j : Json) : Json :=
+  let p := parseVh j
+  renderVh j p (vhandler p.encOps p.fail p.ops p.server)
+
+/-! a history: {"seq": [step, …]} — every step overrides `route`, `req`, `ops`, `path2` of the base case; all
+steps go through ONE Validator / ValidationHandler chain. The outcomes come from the sequence machine
+(`serveSeq` / `vserveSeq`), the oracle is the per-request spec. -/
+def zip3 {α β γ : Type} : List α → List β → List γ → List (α × β × γ)
+  | a :: as, b :: bs, c :: cs => (a, b, c) :: zip3 as bs cs
+  | _, _, _ => []
+
+def pairsOf {α : Type} : List α → List (α × α)
+  | a :: b :: rest => (a, b) :: pairsOf (b :: rest)
+  | _ => []
+
+def seqBranches (j : Json) (steps : List Json) (replies : List Json) : List String :=
+  let brs := replies.map (fun r => strs (getArr r "branches"))
+  let has (l : List String) (b : String) := l.contains b
+  let trans := (pairsOf brs).foldl (fun acc (a, b) =>
+      acc ++
+      (if has a "mw.strict_replaced" && has b "mw.strict_flushed" then ["seq.valid_after_rejected"] else []) ++
+      (if has a "mw.strict_flushed" && has b "mw.strict_replaced" then ["seq.rejected_after_valid"] else []) ++
+      (if has a "mw.strict_replaced" && has b "mw.strict_replaced" then ["seq.rejected_after_rejected"] else []) ++
+      (if has a "mw.warn_logged" then ["seq.after_warn_logged"] else []) ++
+      (if has a "mw.badreq" || has a "mw.noroute" then ["seq.after_rejected_request"] else []) ++
+      (if (has b "mw.badreq" || has b "mw.noroute") && has a "mw.strict_replaced" then ["seq.rejected_request_after_rejected_response"] else []) ++
+      (if has a "mw.panic" then ["seq.after_panic"] else []) ++
+      (if has a "ops.nostatus" && !has b "ops.nostatus" then ["seq.after_silent_handler"] else []) ++
+      (if has a "vh.none" && !has b "vh.none" then ["seq.vh.rejected_after_served"] else []) ++
+      (if !has a "vh.none" && has b "vh.none" && has a "vh.enc.vee" then ["seq.vh.served_after_rejected"] else [])) []
+  let paths := (steps.map (fun s => getBool s "path2")).eraseDups
+  ["seq.len" ++ toString steps.length] ++ trans.eraseDups ++
+  (if paths.length > 1 then ["seq.two_operations"] else []) ++
+  (if getBool j "par" then ["seq.concurrent"] else []) ++
+  (brs.foldl (· ++ ·) []).eraseDups
+
+def handleSeq (j : Json) : Json :=
+  let steps := (getArr j "seq").map (fun s => j.mergeObj s)
+  let replies : List Json :=
+    if getStr j "mode" == "vh" then
+      let ps := steps.map parseVh
+      let outs := vserveSeq (parseVh j).encOps (ps.map (fun p => ⟨p.fail, p.ops, p.server⟩))
+      (zip3 steps ps outs).map (fun (s, p, o) => renderVh s p o)
+    else
+      let ps := steps.map parseMw
+      let outs := serveSeq (parseMw j).cfg (ps.map (fun p => ⟨p.env, p.ops⟩))
+      (zip3 steps ps outs).map (fun (s, p, o) => renderMw s p o)
+  let field (k : String) := Json.arr (replies.map (fun r => getD r k Json.null)).toArray
+  jobj [
+    ("model", jobj [("steps", field "model")]),
+    ("spec", jobj [("steps", field "spec")]),
+    ("excl", jstrs ((replies.map (fun r => strs (getArr r "excl"))).foldl (· ++ ·) []).eraseDups),
+    ("branches", jstrs (seqBranches j steps replies))]
+
 /-- request: {mode: "mw"|"vh", strict, errfn, errops, logfn, route: ok|nopath|nomethod, req: ok|missing|type,
     doc: {responses:[{key,kind}], includeStatus}, ops:[…], transport, router, enc, entry} -/
 def handle (j : Json) : Json :=
-  if getStr j "mode" == "vh" then handleVh j else handleMw j
+  match j.getObjVal? "seq" with
+  | .ok (.arr _) => handleSeq j
+  | _ => if getStr j "mode" == "vh" then handleVh j else handleMw j
 
 end KinModel.Drv.C14
